@@ -15,9 +15,9 @@ import (
 func TestVerifC10Schedule13(t *testing.T) {
 	r := &c10Rand{s: c10Seed() ^ 0xc1043}
 	out := newC10Out(t)
-	n := 24
+	n := 16
 	if c10Thorough() {
-		n = 1500
+		n = 500
 	}
 	type hm struct {
 		code int
